@@ -177,6 +177,7 @@ pub fn real_name(label: &str) -> String {
         "LONG" => "x".repeat(65536),
         "XLONG" => "y".repeat(65537),
         "XUNI" => "\u{e9}".repeat(40000),
+        "MUNI" => format!("a{}", "\u{e9}".repeat(100)),      // 201 bytes, every even byte offset falls inside a character
         "LUNI" => "\u{e8}".repeat(32768),
         s => s.to_string(),
     }
@@ -189,6 +190,8 @@ pub fn label_of(name: &str) -> String {
         "uni".into()
     } else if name.len() == 80000 {
         "XUNI".into()
+    } else if name.len() == 201 && name.starts_with("a\u{e9}") {
+        "MUNI".into()
     } else if name.len() == 65536 && name.starts_with('\u{e8}') {
         "LUNI".into()
     } else if name.len() == 65536 {
